@@ -4,7 +4,7 @@ CONSTANTS
   MaxTotal2 = 2
   MaxP = 2
   MinLens = {1, 2}
-  OccRates = {0, 3}
+  OccRates = {3}
   AllSentinelOrders = TRUE
   T = 2
 SPECIFICATION Spec
